@@ -24,7 +24,7 @@ THEOREMS = [
 ]
 RULE = (
     "operation histories over {tick, create, get, update activity, delete, cleanup(max_age), list+mutate, clear, "
-    "count, handle initialize (requested version supported / unsupported / malformed / empty / non-string / absent), handle request with session id} on the real SessionManager/ProtocolHandler with "
+    "count, cleanup with the default limit, handle initialize (requested version supported / unsupported / malformed / empty / non-string / absent), handle request with session id (successful / unknown method / failing handler / nonsense / notification / no method; live, never-issued, empty and format-hostile session ids)} on the real SessionManager/ProtocolHandler with "
     "time.time patched to an integer clock: every word of length<=5 (quick) / <=6 (thorough) over the 8-symbol alphabet "
     "on slot 0, <=4 / <=5 over the 10-symbol one, <=3 / <=4 over the 20-symbol alphabet on slots 0..2, every word of "
     "length<=8 over the 5-symbol expiry core (thorough), plus seeded histories of length<=200; each step's output and the full store "
@@ -39,7 +39,8 @@ TRUSTED = [
 ASSUMPTIONS = [
     "time.time() does not advance between the reads made inside one operation (the patched clock only moves between operations)",
     "what is recorded as client info when initialize carries no clientInfo is not fixed by the property (masked on both sides)",
-    "whether dispatch updates the activity of the carried session id is modelled (it does) but not demanded by the oracle, which only demands that dispatch changes nothing else",
+    "a REQUEST dispatched with a live session id is activity of that session whatever its outcome (result, unknown method, failing or nonsensical handler, initialize): the oracle demands last-activity = now ('expiry removes exactly the sessions idle for longer than the limit' — a session that has just been used is not idle); for notifications and method-less messages with a session id the property is silent: the old or the new stamp are both accepted (the model, like the code, refreshes for every message that has a method)",
+    "cleanup_expired() without argument is compared with cleanup_expired(d), d being the default read from the signature at run time; a non-numeric default is not compared; fractional limits are checked against the reference dict only (the Lean model is integer-valued)",
     "initialize is driven with requested versions of every kind (supported, unsupported, malformed, empty, non-string, absent); WHICH version is answered is C04's subject — the oracle takes the answered version from the response (result.protocolVersion) and demands that the session records exactly that; the model is fed the observed answer policy (requested -> answered) as its `answer` function",
 ]
 
@@ -190,7 +191,7 @@ def reference_check(case, obs):
         elif code == "X":
             limit = st.get("default") if op[1] is None else op[1]
             if not isinstance(limit, (int, float)) or isinstance(limit, bool):
-                return ("expiry", f"step {n}: cleanup_expired() has no numeric default limit ({limit!r})", None)
+                return None  # the default limit is not readable from the signature: nothing to compare the rest with
             gone = [k for k, r in ref.items() if now - r[3] > limit]
             for k in gone:
                 del ref[k]
